@@ -168,6 +168,11 @@ func (c *Command) scanSubcommandHandler(parentg *Group) scanHandler {
 			for i := 0; i < stype.NumField(); i++ {
 				field := stype.Field(i)
 
+				// unexported fields cannot be set
+				if field.PkgPath != "" && !field.Anonymous {
+					continue
+				}
+
 				m := newMultiTag((string(field.Tag)))
 
 				if err := m.Parse(); err != nil {
